@@ -753,6 +753,10 @@ class Undecided(AnalysisError):
     pass
 
 
+class NonTermination(Exception):
+    """an evaluated loop exceeded its budget of rounds"""
+
+
 class _Raise(Exception):
     def __init__(self, node, what, exc=None):
         Exception.__init__(self, what)
@@ -806,6 +810,7 @@ class Ev:
         self.syms = {}  # name -> Sym, for atoms used as dictionary keys
         self.ids = {}  # python id -> IdV, for id(x) used as dictionary keys
         self.input_reply = None  # what input() answers (Str), when the evaluated code may ask the user
+        self.loop_budget = 200
         self.module_cache = {}
         self.class_attrs = {}
         self.memo_calls = {}
@@ -1379,6 +1384,24 @@ class Ev:
                 it = self.iterate(src, st)
             for x in it:
                 self.assign(st.target, x, env, mod)
+                r = self.block(st.body, env, mod)
+                if r is not None:
+                    if r[0] == "break":
+                        break
+                    if r[0] == "continue":
+                        continue
+                    return r
+            else:
+                return self.block(st.orelse, env, mod)
+            return None
+        if isinstance(st, ast.While):
+            # evaluated while every test is decidable in the case at hand; a loop that does not end within the budget
+            # is reported as such (NonTermination), which a rule may turn into a finding
+            rounds = 0
+            while self.truth(self.ev(st.test, env, mod), st):
+                rounds += 1
+                if rounds > self.loop_budget:
+                    raise NonTermination("the loop at line %d has not ended after %d rounds" % (st.lineno, self.loop_budget))
                 r = self.block(st.body, env, mod)
                 if r is not None:
                     if r[0] == "break":
@@ -2222,6 +2245,8 @@ class Ev:
         if name in ("operator.itemgetter", "itemgetter") and len(args) == 1:
             i0 = args[0]
             return PyFunc(lambda a, k: self.subscript(a[0], ast.Constant(value=i0 if isinstance(i0, int) else i0.text()), {}, None, e), "itemgetter")
+        if name in ("collections.deque", "deque") and len(args) <= 1 and not kwargs:
+            return ListV(list(self.iterate(args[0], e)) if args else [])  # a list with popleft / appendleft
         if name in ("collections.defaultdict", "defaultdict"):
             d = DictV()
             d.default = args[0] if args else None
@@ -2564,6 +2589,13 @@ class Ev:
             return ListV(list(recv.items))
         if isinstance(recv, ListV) and "ndarray" in getattr(recv, "ext_types", ()) and name in ("all", "any") and not args and all(isinstance(i, bool) for i in recv.items):
             return all(recv.items) if name == "all" else any(recv.items)
+        if type(recv) is ListV and name == "popleft" and not args:
+            if not recv.items:
+                raise _Raise(e, "pop from an empty deque", "IndexError")
+            return recv.items.pop(0)
+        if type(recv) is ListV and name == "appendleft" and len(args) == 1:
+            recv.items.insert(0, args[0])
+            return NONE
         if isinstance(recv, ListV) and not isinstance(recv, TupV) and not isinstance(recv, SetV):
             if name == "append":
                 recv.items.append(args[0])
